@@ -21,6 +21,7 @@ from mc.harness import Entity, Event, Instant, Simulation, TimeTravelWatch, pmap
 import happysimulator.parallel.coordinator as _coord
 import happysimulator.parallel.simulation as _psim
 from happysimulator.core.sim_future import SimFuture
+from happysimulator.distributions.constant import ConstantLatency
 from happysimulator.parallel import ParallelSimulation, PartitionLink, SimulationPartition
 
 PID = "C05"
@@ -246,11 +247,15 @@ class _Patched:
 def topo_links(topo, n):
     """topo: 'bi' all pairs both ways; 'chain' i->i+1 only; 'none'."""
     links = []
-    if topo == "bi":
+    if topo in ("bi", "bi-lat"):
+        # 'bi-lat': the link also declares a latency distribution; the coordinator then stamps
+        # each cross event send_time + sample.  With a constant equal to the only cross delay
+        # the programs of that topology use, the run must equal the sequential one.
+        kw = {"latency": ConstantLatency(L_S)} if topo == "bi-lat" else {}
         for i in range(n):
             for j in range(n):
                 if i != j:
-                    links.append(PartitionLink(f"P{i}", f"P{j}", min_latency=L_S))
+                    links.append(PartitionLink(f"P{i}", f"P{j}", min_latency=L_S, **kw))
     elif topo == "chain":
         for i in range(n - 1):
             links.append(PartitionLink(f"P{i}", f"P{i+1}", min_latency=L_S))
@@ -344,12 +349,12 @@ def compare(par, seq, warns, err, end_ns, exact=False):
 def step_alphabet(n, node, topo, window_ns, rich):
     steps = [("l", 0), ("l", 1), ("l", window_ns)]
     dests = []
-    if topo == "bi":
+    if topo in ("bi", "bi-lat"):
         dests = [j for j in range(n) if j != node]
     elif topo == "chain" and node + 1 < n:
         dests = [node + 1]
     for j in dests:
-        steps += [("x", j, L_NS), ("x", j, L_NS + 1), ("x", j, 2 * L_NS)]
+        steps += [("x", j, L_NS)] if topo == "bi-lat" else [("x", j, L_NS), ("x", j, L_NS + 1), ("x", j, 2 * L_NS)]
     if rich:
         steps += [("g", window_ns), ("f", 1)]
     return steps, dests
@@ -603,6 +608,8 @@ def main(tier, seed, only=None):
             run_programs(run, "p2-bi-2chains", 2, "bi", W[:2], 2, 2, full_end, ["fwd"], False, seed)
         if want("p3-chain"):
             run_programs(run, "p3-chain", 3, "chain", W[:2], 3, 1, full_end, ["fwd", "rev"], False, seed)
+        if want("p2-link-latency"):
+            run_programs(run, "p2-link-latency", 2, "bi-lat", W[:2], 3, 1, cut_end, ["fwd"], True, seed)
         if want("independent"):
             run_independent(run, seed, 1)
         if want("schedules"):
@@ -618,6 +625,8 @@ def main(tier, seed, only=None):
             run_programs(run, "p3-chain", 3, "chain", W, 4, 1, full_end, ["fwd", "rev"], True, seed)
         if want("p3-bi"):
             run_programs(run, "p3-bi", 3, "bi", W[:2], 3, 1, full_end, ["fwd", "rev"], False, seed)
+        if want("p2-link-latency"):
+            run_programs(run, "p2-link-latency", 2, "bi-lat", W, 4, 1, cut_end, ["fwd", "rev"], True, seed)
         if want("independent"):
             run_independent(run, seed, 2)
         if want("schedules"):
